@@ -185,10 +185,13 @@ func sendTCP(conn *net.TCPConn, b []byte) ([]byte, error) {
 	}
 	s := binary.BigEndian.Uint32(sh)
 
-	rb := make([]byte, s, s)
-	_, err = io.ReadFull(conn, rb)
+	// Read up to the announced size without allocating it in advance: the size comes from the peer
+	rb, err := io.ReadAll(io.LimitReader(conn, int64(s)))
 	if err != nil {
 		return r, fmt.Errorf("error reading response: %v", err)
+	}
+	if uint32(len(rb)) != s {
+		return r, fmt.Errorf("error reading response: %d bytes received of the %d announced", len(rb), s)
 	}
 	if len(rb) < 1 {
 		return r, fmt.Errorf("no response data from KDC %s", conn.RemoteAddr().String())
